@@ -46,6 +46,18 @@ pub fn c01(ctx: &Ctx) -> PropResult {
     for src in operand_order_family() {
         cases.push(run_case(src, "operand-order"));
     }
+    // indexing a string is by character: every position of strings with multi-byte characters, inside expressions
+    for st in ["héllo wörld", "aé中😀b", "😀", "ab", "日本語テキスト"] {
+        let n = st.chars().count();
+        for i in 0..=n + 1 {
+            cases.push(run_case(format!("s <- \"{st}\"\nDISPLAY(\"start\")\nDISPLAY(s[{i}])\nDISPLAY(\"<\" + s[{i}] + \">\" + s[1])\n"), "string-index"));
+        }
+        cases.push(run_case(format!("s <- \"{st}\"\nt <- \"\"\nk <- 0\nREPEAT LENGTH(s) TIMES {{\nk <- k + 1\nt <- s[k] + t\n}}\nDISPLAY(t)\n"), "string-index"));
+    }
+    // every place a value is used as a condition applies the same truthiness rule
+    for (_, a) in EXEMPLARS {
+        cases.push(run_case(format!("{pre}x <- {a}\nk <- 0\nREPEAT UNTIL (x) {{\nk <- k + 1\nIF (k >= 3) {{\nBREAK\n}}\n}}\nDISPLAY(k)\nk <- 0\nREPEAT UNTIL (FALSE OR x) {{\nk <- k + 1\nIF (k >= 2) {{\nBREAK\n}}\n}}\nDISPLAY(k)\nIF (x AND TRUE) {{\nDISPLAY(\"and-truthy\")\n}} ELSE IF (x) {{\nDISPLAY(\"elseif-truthy\")\n}} ELSE {{\nDISPLAY(\"falsy\")\n}}\n"), "condition-truthiness"));
+    }
     // the value of + on lists is a new list: changing it later changes neither operand, and vice versa
     for x in ["l", "[]", "[1]", "m", "(l + [])", "([] + l)"] {
         for y in ["l", "[]", "[1]", "m"] {
@@ -289,6 +301,23 @@ pub fn c02(ctx: &Ctx) -> PropResult {
             cases.push(run_case(format!("PROCEDURE c() {{\nDISPLAY(\"cond\")\nRETURN k >= 3\n}}\nk <- 0\nREPEAT UNTIL (c()) {{\nk <- k + 1\nIF (k == {at}) {{\n{ctl}\n}}\nDISPLAY(\"tail\")\n}}\nDISPLAY(k)\n"), "until-effectful-condition"));
         }
     }
+    // loop headers are evaluated as the property says: the count once, the UNTIL condition before every iteration,
+    // the FOR EACH collection once
+    for (head, tail) in [
+        ("REPEAT probe(2) TIMES {", "}"),
+        ("REPEAT probe(0) TIMES {", "}"),
+        ("REPEAT probe(0.5) TIMES {", "}"),
+        ("n <- 1\nREPEAT (n <- n + 1) TIMES {", "}\nDISPLAY(n)"),
+        ("q <- [1, 2, 3]\nREPEAT REMOVE(q, 1) TIMES {", "}\nDISPLAY(q)"),
+        ("k <- 0\nREPEAT UNTIL (probe(k >= 2)) {\nk <- k + 1", "}"),
+        ("q <- [1, 2, 3]\nREPEAT UNTIL (REMOVE(q, 1) >= 2) {", "}\nDISPLAY(q)"),
+        ("FOR EACH e IN probe([1, 2]) {", "}"),
+        ("l <- [1, 2]\nFOR EACH e IN (l <- l + [3]) {", "}\nDISPLAY(l)"),
+    ] {
+        for body in ["DISPLAY(\"body\")\n", "DISPLAY(\"body\")\nCONTINUE\n", "DISPLAY(\"body\")\nBREAK\n", ""] {
+            cases.push(run_case(format!("PROCEDURE probe(v) {{\nDISPLAY(\"header\")\nRETURN v\n}}\n{head}\n{body}{tail}\nDISPLAY(\"end\")\n"), "effectful-loop-header"));
+        }
+    }
     // REPEAT n TIMES runs exactly floor(n) times: counts just below and just above integers, from decimal arithmetic
     for count in ["0.29 * 100", "0.9999999999999998", "2.9999999999999996", "1.0000000000000002", "4.35 * 100", "3 - 0.0000000000000004", "0.1 * 3 * 10", "1 / 3 * 3", "0.7 + 0.2 + 0.1", "5.000000000000001", "4.999999999999999", "0.5 + 0.49999999999999994", "100 * 1.1", "-0.0000001", "2 - 1.9999999999999998"] {
         cases.push(run_case(format!("k <- 0\nREPEAT {count} TIMES {{\nk <- k + 1\n}}\nDISPLAY(k)\nn <- {count}\nk <- 0\nREPEAT n TIMES {{\nk <- k + 1\nIF (k > 1000) {{\nBREAK\n}}\n}}\nDISPLAY(k)\n"), "repeat-count-near-integer"));
@@ -401,6 +430,26 @@ pub fn c03(ctx: &Ctx) -> PropResult {
     for f in fixed {
         cases.push(run_case(f.to_string(), "fixed-scenario"));
     }
+    // RETURN inside each loop kind with the loop variable / counter changed before it, braced and unbraced bodies:
+    // the returning iteration does nothing more (no write-back, no further iteration, no re-evaluation)
+    for (lp, close) in [("FOR EACH e IN l {", "}"), ("FOR EACH e IN l", ""), ("REPEAT 3 TIMES {", "}"), ("REPEAT 3 TIMES", ""), ("REPEAT UNTIL (k > 5) {", "}"), ("REPEAT UNTIL (k > 5)", "")] {
+        for body in ["IF (e > 1) RETURN e", "IF (e > 1) {\ne <- e * 10\nRETURN e\n}", "IF (k >= 1) {\nk <- k + 100\nRETURN k\n}\nk <- k + 1"] {
+            if close.is_empty() && body.contains('\n') && !body.starts_with("IF (e > 1) {") {
+                continue;
+            }
+            if (lp.starts_with("REPEAT")) && body.contains("(e >") {
+                continue;
+            }
+            let sep = if close.is_empty() { " " } else { "\n" };
+            cases.push(run_case(format!("PROCEDURE f(l) {{\nk <- 0\n{lp}{sep}{body}\n{close}\nRETURN \"end\"\n}}\nq <- [1, 2, 3, 7]\nDISPLAY(f(q))\nDISPLAY(q)\nDISPLAY(f([5, 6]))\n"), "return-in-loop-after-change"));
+        }
+    }
+    // a procedure declared again replaces the earlier one for every later call, also from call sites that ran before
+    for (second, call2) in [("PROCEDURE area(a, b) {\nRETURN a * b\n}", "area(3, 4)"), ("PROCEDURE area(a) {\nRETURN \"new\"\n}", "area(3)"), ("PROCEDURE area() {\nRETURN 0\n}", "area()")] {
+        cases.push(run_case(format!("PROCEDURE area(a) {{\nRETURN a * a\n}}\nPROCEDURE use(x) {{\nRETURN area(x)\n}}\nDISPLAY(use(3))\n{second}\nDISPLAY({call2})\nDISPLAY(use(3))\n"), "redeclaration"));
+        cases.push(run_case(format!("PROCEDURE area(a) {{\nRETURN a * a\n}}\nn <- 0\nREPEAT 2 TIMES {{\nn <- n + 1\nDISPLAY(area(3))\nIF (n == 1) {{\n{second}\n}}\n}}\n"), "redeclaration"));
+        cases.push(run_case(format!("PROCEDURE area(a) {{\nRETURN a * a\n}}; {second}; DISPLAY({call2})\n"), "redeclaration"));
+    }
     // names are exact: another casing of a defined name (library or user) is undefined, raised before anything runs
     for (decl, call) in [("", "display(1)"), ("", "Display(1)"), ("l <- [1]\n", "DISPLAY(length(l))"), ("l <- [1]\n", "append(l, 2)"), ("PROCEDURE SHOUT() {\nDISPLAY(\"in SHOUT\")\n}\n", "shout()"), ("PROCEDURE whisper() {\nDISPLAY(\"in whisper\")\n}\n", "WHISPER()"), ("PROCEDURE Mixed() {\nDISPLAY(\"in Mixed\")\n}\n", "mixed()"), ("PROCEDURE f() {\nRETURN 1\n}\nPROCEDURE F() {\nRETURN 2\n}\n", "DISPLAY(f() + F() * 10)")] {
         cases.push(run_case(format!("{decl}DISPLAY(\"before\")\n{call}\nDISPLAY(\"after\")\n"), "name-casing"));
@@ -492,6 +541,12 @@ pub fn c04(ctx: &Ctx) -> PropResult {
             src.push_str("DISPLAY(a)\nDISPLAY(b)\nDISPLAY(c)\nDISPLAY(d)\n");
         }
         cases.push(run_case(src, "history"));
+    }
+    // every evaluation of a list-producing expression yields a new list: evaluated twice (loop, procedure called
+    // twice), the first result changed, both displayed
+    for e in ["[0, 0]", "[]", "[1]", "[x, 0]", "[[0]]", "base + [1]", "[] + []", "mk()", "[\"a\", TRUE, NULL]"] {
+        cases.push(run_case(format!("PROCEDURE mk() {{\nRETURN [0, 0]\n}}\nx <- 5\nbase <- [9]\ngrid <- []\nREPEAT 2 TIMES {{\nAPPEND(grid, {e})\n}}\nAPPEND(grid[1], 7)\nDISPLAY(grid)\nDISPLAY(base)\n"), "fresh-per-evaluation"));
+        cases.push(run_case(format!("PROCEDURE mk() {{\nRETURN [0, 0]\n}}\nPROCEDURE g(x) {{\nbase <- [9]\nr <- {e}\nRETURN r\n}}\na <- g(5)\nb <- g(5)\nAPPEND(a, 7)\nDISPLAY(a)\nDISPLAY(b)\nc <- g(6)\nDISPLAY(c)\n"), "fresh-per-evaluation"));
     }
     // every index value on a list and a string, read and write
     for i in idx {
